@@ -57,6 +57,9 @@ func (i *Inst) Open(o OpenOpts) (*TunConn, *wsraw.HTTPReply, error) {
 			return nil, rep, err
 		}
 		t.WS = ws
+		if i.Cfg.NoHooks {
+			return t, rep, nil
+		}
 		if idx, _ := i.P.Wait(t.OpenMark, 10*time.Second, func(e gw.Event) bool { return e.Cid == cid && e.Pt == "tr.reading" }); idx < 0 {
 			ws.Close()
 			return nil, rep, fmt.Errorf("no tr.reading hook event for %s", cid)
@@ -68,6 +71,18 @@ func (i *Inst) Open(o OpenOpts) (*TunConn, *wsraw.HTTPReply, error) {
 			return nil, rep, err
 		}
 		t.Out = out
+		if i.Cfg.NoHooks {
+			time.Sleep(20 * time.Millisecond) // let the OUT side be published
+			in, rep2, err := wsraw.DialLegacyIn(d)
+			if err != nil || in == nil {
+				out.Close()
+				return nil, rep2, err
+			}
+			t.In = in
+			in.WriteChunk(make([]byte, 100))
+			time.Sleep(10 * time.Millisecond)
+			return t, rep2, nil
+		}
 		if idx, _ := i.P.Wait(t.OpenMark, 10*time.Second, func(e gw.Event) bool { return e.Cid == cid && e.Pt == "legacy.out.published" }); idx < 0 {
 			out.Close()
 			return nil, rep, fmt.Errorf("no legacy.out.published hook event for %s", cid)
